@@ -76,6 +76,14 @@ def op_line(op):
         return "ext %d %s" % (op[1], enc(op[2]))
     if kind == "extdel":
         return "extdel %d" % op[1]
+    if kind in ("enter", "exit"):
+        return "%s o%d" % (kind, op[1])
+    if kind == "center":
+        return "center" if op[1] is None else "center %d" % op[1]
+    if kind == "cexit":
+        return "cexit"
+    if kind == "setcap":
+        return "setcap %d" % op[1]
     if kind == "call":
         _, h, name, *args = op
         parts = ["call", h, name]
@@ -216,10 +224,11 @@ class Runner:
     """Executes structured ops against the real classes of one family and renders
     the same lines the Lean driver prints."""
 
-    def __init__(self, ns, world, fam_index=0):
+    def __init__(self, ns, world, fam_index=0, buffered_cls=None):
         self.ns = ns
         self.world = world
         self.fam_index = fam_index
+        self.bcls = buffered_cls     # the buffered class whose buffer state is reported
         self.objs = []        # root objects
         self.handles = []     # registered child objects (kept alive)
         self.hid = {}         # id(obj) -> handle number
@@ -254,8 +263,23 @@ class Runner:
             d = self.world.read(res)
             if d is not MISSING:
                 parts.append(" r%d=%s" % (res, enc(d)))
+        if self.bcls is not None:
+            files = sorted(self.res_of_path(p) for p in self.bcls._buffer)
+            return "st%s | buf size=%d cap=%d files=[%s]" % (
+                "".join(parts), self.bcls.get_current_buffer_size(), self.bcls.get_buffer_capacity(),
+                ", ".join(map(str, files)))
         mem = "".join(" o%d=%s" % (i, enc(self._plain(o))) for i, o in enumerate(self.objs))
         return "st" + "".join(parts) + " | mem" + mem
+
+    def res_of_path(self, path):
+        import os
+        return int(os.path.basename(path)[1:-5])
+
+    def err_line(self, e):
+        name = type(e).__name__
+        if name == "BufferedError":
+            return "err BufferedError " + ",".join(str(r) for r in sorted(self.res_of_path(p) for p in e.files))
+        return "err " + name
 
     def root_objs(self):
         return self.objs
@@ -285,12 +309,28 @@ class Runner:
         if kind == "extdel":
             self.world.delete(op[1])
             return ["ok", self.state_line()]
+        if kind in ("enter", "exit", "center", "cexit", "setcap"):
+            try:
+                if kind == "enter":
+                    self.objs[op[1]].buffered.__enter__()
+                elif kind == "exit":
+                    self.objs[op[1]].buffered.__exit__(None, None, None)
+                elif kind == "center":
+                    ctx = self.bcls.buffer_backend() if op[1] is None else self.bcls.buffer_backend(op[1])
+                    ctx.__enter__()
+                elif kind == "cexit":
+                    self.bcls._buffer_context.__exit__(None, None, None)
+                else:
+                    self.bcls.set_buffer_capacity(op[1])
+            except Exception as e:  # noqa: BLE001
+                return [self.err_line(e), self.state_line()]
+            return ["ok", self.state_line()]
         if kind == "call":
             _, h, name, *args = op
             obj = self.target(h)
             try:
                 r = apply_call(obj, name, args)
             except Exception as e:  # noqa: BLE001
-                return ["err " + type(e).__name__, self.state_line()]
+                return [self.err_line(e), self.state_line()]
             return ["ok " + self.show_result(result_shape(name, args), r), self.state_line()]
         raise ValueError(op)
